@@ -24,7 +24,7 @@ namespace Amgcl.Sched
 /-- sparsity pattern: row `i` ↦ its column indices in stored order -/
 abbrev Pattern := Array (List Nat)
 
-def pattern {K : Type} (A : CRS K) : Pattern := A.rows.map (fun r => r.map Prod.fst)
+def pattern {K : Type} (A : CRS K) : Pattern := (A.rows.toList.map (fun r => r.map Prod.fst)).toArray
 
 /-- every stored column index is a row index (square matrix) -/
 def Pattern.wfb (A : Pattern) : Bool := A.toList.all (fun r => r.all (fun c => decide (c < A.size)))
